@@ -64,3 +64,61 @@ let () =
              @ List.map hex_of_bstr f.pf_str @ [bool_s s.sc_err]
          | o -> [cls o])
     | _ -> failwith "c11_po_read: arity")
+
+(* whole entries (Model/PoEntry.v) *)
+let hexs l = ("#" ^ string_of_int (List.length l)) :: List.map hex_of_bstr l
+
+let msg_fields (m : pe_message) =
+  let c = m.pm_comment and f = m.pm_fields in
+  hexs c.pc_translator @ hexs c.pc_extracted @ hexs c.pc_refs @ hexs c.pc_flags
+  @ [hex_of_bstr c.pc_prev_ctxt; hex_of_bstr c.pc_prev_id; hex_of_bstr c.pc_prev_id_plural;
+     hex_of_bstr f.pf_ctxt; hex_of_bstr f.pf_id; hex_of_bstr f.pf_id_plural]
+  @ hexs f.pf_str
+
+let parse_resp input =
+  match pe_parse input with
+  | Ok ms -> "ok" :: ("#" ^ string_of_int (List.length ms)) :: List.concat_map msg_fields ms
+  | o -> [cls o]
+
+let () =
+  (* c11_po_entries #n (<hex desc> #id <hex var | -> #plural <hex ctxt> <hex id> <hex id_plural> #k <hex str>*k)*n #p <#rune>*p
+       -> <hex bytes of the file> then the response of c11_po_parse on them; #plural = 1: the entry has var= *)
+  register "c11_po_entries" (fun a -> match a with
+    | n :: rest ->
+        let one toks = match toks with
+          | d :: id :: v :: pl :: c :: i :: ip :: k :: r ->
+              let (strs, r) = take_n (int_field k) (function s :: r -> (bstr_of_hex s, r) | [] -> failwith "c11_po_entries: str missing") r in
+              let f = { pf_ctxt = bstr_of_hex c; pf_id = bstr_of_hex i; pf_id_plural = bstr_of_hex ip; pf_str = strs } in
+              let pv = if int_field pl = 1 then Some (bstr_of_hex v) else None in
+              (pe_extract_entry (bstr_of_hex d) (Z.to_N (big_field id)) pv f, r)
+          | _ -> failwith "c11_po_entries: entry" in
+        let (ms, rest) = take_n (int_field n) one rest in
+        let (pr, _) = parse_printable rest in
+        let bytes = pe_write_file pr ms in
+        hex_of_bstr bytes :: parse_resp bytes
+    | _ -> failwith "c11_po_entries: arity");
+  (* c11_po_parse <hex bytes> -> class #n, per message: #k translator*k #k extracted*k #k refs*k #k flags*k
+       prev_ctxt prev_id prev_id_plural ctxt id id_plural #k str*k *)
+  register "c11_po_parse" (fun a -> match a with
+    | [s] -> parse_resp (bstr_of_hex s)
+    | _ -> failwith "c11_po_parse: arity")
+
+(* po.Parse + pomsg.newBundle on the bytes of a catalogue (Model/PoBundle.v) *)
+let po_parts_s (ps : part list) : string list =
+  ("#" ^ string_of_int (List.length ps))
+  :: List.concat_map (function PText t -> ["T"; hex_of_bstr t] | PPh n -> ["P"; hex_of_bstr n]) ps
+
+let () =
+  (* c11_po_load <hex bytes> #k <#id>*k -> class, then per id: none | S <parts> | L <hex var> #n <parts>*n *)
+  register "c11_po_load" (fun a -> match a with
+    | s :: k :: rest ->
+        let (ids, _) = take_n (int_field k) (function x :: r -> (Z.to_N (big_field x), r) | [] -> failwith "c11_po_load: id missing") rest in
+        (match pb_load (bstr_of_hex s) with
+         | Ok bd ->
+             "ok" :: List.concat_map (fun id ->
+               match bundle_message bd id with
+               | None -> ["none"]
+               | Some (CSimple ps) -> "S" :: po_parts_s ps
+               | Some (CPlural (v, cases)) -> "L" :: hex_of_bstr v :: ("#" ^ string_of_int (List.length cases)) :: List.concat_map po_parts_s cases) ids
+         | o -> [cls o])
+    | _ -> failwith "c11_po_load: arity")
